@@ -283,6 +283,14 @@ def run_cache_case(ctx, d):
             m = tf.keras.Model(base.input, base.output)      # another object, same tensors
             models.append(m)
             live.append(m)
+        elif step == "sibling" and models:
+            base = models[int(rng.integers(len(models)))]
+            lay = [l for l in base.layers if l.output is not base.output and hasattr(l, "units")]
+            if not lay:
+                continue
+            m = tf.keras.Model(base.input, lay[-1].output)   # same input tensor, ANOTHER output tensor
+            models.append(m)
+            live.append(m)
         elif step == "drop" and models:
             t = make_model(tf, "tab", (4,), int(rng.integers(1 << 20)))
             Saliency(t)
@@ -310,11 +318,20 @@ def run_cache_case(ctx, d):
             ctx.count("cache_entry_from_earlier_case")
     # results: an explainer built on a view equals the one built on the base
     x = rng.integers(-3, 4, size=(2, 4)).astype(np.float32)
-    y = np.eye(2, dtype=np.float32)
     for i, e in zip(order, expl):
         if isinstance(e, Saliency):
-            ref = Saliency(models[i])(x, y).numpy()
-            ctx.check_prop("cache-isolation", bool(np.array_equal(e(x, y).numpy(), ref)), d, {"model": i})
+            nout = int(models[i].output.shape[-1])
+            y = np.eye(nout, dtype=np.float32)[[0, nout - 1]]
+            # independent reference: |d sum(model(x) * y) / dx| straight from autodiff, no explainer, no cache
+            xt = tf.constant(x)
+            with tf.GradientTape() as tape:
+                tape.watch(xt)
+                sc = tf.reduce_sum(models[i](xt) * y, -1)
+            ref = np.abs(tape.gradient(sc, xt).numpy())
+            ok, got = ctx.impl_call(d, lambda: e(x, y).numpy(), signature="cache-explain")
+            if ok:
+                ctx.check_prop("cache-isolation", got.shape == ref.shape and bool(np.allclose(got, ref, rtol=1e-5, atol=1e-6)), d,
+                               {"model": i, "got": got.reshape(-1)[:4].tolist(), "reference": ref.reshape(-1)[:4].tolist()})
     _KEEP.extend(live[-2:])
     del _KEEP[:-6]
 
@@ -351,7 +368,7 @@ def gen_cases(ctx):
                           "history_len": int(rng.integers(1, hmax + 1)), "N": int(rng.integers(2, 5)),
                           "bs": int(rng.choice([1, 3, 16])), "case_seed": int(rng.integers(1 << 31))})
     for _ in range(reps * 3):
-        steps = [str(rng.choice(["new", "new", "view", "drop"])) for _ in range(int(rng.integers(3, 8)))]
+        steps = [str(rng.choice(["new", "view", "sibling", "sibling", "drop"])) for _ in range(int(rng.integers(3, 8)))]
         steps[0] = "new"
         cases.append({"type": "cache", "steps": steps, "n_constructions": int(rng.integers(3, 9)),
                       "case_seed": int(rng.integers(1 << 31))})
